@@ -5,6 +5,7 @@
 -/
 import Walleye.Model.SearchChess
 import Walleye.Model.Time
+import Walleye.Model.Uci
 import Walleye.Spec.Abs
 import Walleye.Ops
 import Walleye.Spec.Negamax
@@ -114,6 +115,55 @@ def startPos : Pos :=
   match fromFen H Gen.defaultFen.toList with
   | .ok p => p
   | _ => default
+
+/-- the state line printed by hook H5 (`verif::trace_state`) at the top of the UCI loop -/
+def traceStr (p : Pos) (t : DrawTable) : String :=
+  let lm := match p.lastMove with
+    | none => "-"
+    | some (f, t) => ptAlg f ++ ">" ++ ptAlg t
+  let pp := match p.promo with
+    | none => "-"
+    | some pc => (match pc.color with | .white => "w" | .black => "b") ++ String.singleton (Gen.kindAlg pc.kind)
+  let ep := match p.ep with | none => "-" | some e => ptAlg e
+  s!"verifstate {placementOf p.board} {Spec.sideText p.toMove} {rightsOf p} {ep} {p.wk.row},{p.wk.col} {p.bk.row},{p.bk.col} {hex16 p.key} {lm} {pp} {p.oh} tbl={tableStr t}"
+
+/-- zero-allowance search of the session model: the board the engine answered with must be a root
+    successor that is first in the ordering (maximal `order_heuristic`); the engine's choice among
+    equals (unstable sort) is adopted -/
+def sessSearch (ans : String) (board : Pos) (_t : DrawTable) (slice : Nat) : Option Pos :=
+  if slice ≠ 0 then none
+  else
+    let succs := generateMoves H board .all
+    let mx := succs.foldl (fun a q => max a q.oh) (-Gen.posInf)
+    succs.find? fun q => moveId q == ans && q.oh == mx
+
+/-- the dispatch loop of `play_game_uci` run on a script: one entry per raw line, a `go` entry carries
+    the engine's answer after U+001E; end of script = end of input -/
+def runSession (entries : List (List Char)) : List String := Id.run do
+  let sep := Char.ofNat 0x1e
+  match entries with
+  | [] => return ["exit 0"]           -- end of input before the handshake
+  | first :: rest =>
+    if cleanInput first ≠ "uci".toList then return ["no-handshake"]
+    let mut out : List String := ["uciok"]
+    let mut σ : Sess := ⟨startPos, []⟩
+    let mut live := true
+    for e in rest do
+      if live then
+        out := out ++ [traceStr σ.board σ.table]
+        let raw := e.takeWhile (· ≠ sep)
+        let ans := String.ofList ((e.dropWhile (· ≠ sep)).drop 1)
+        match step H (sessSearch ans) σ (some raw) with
+        | .cont σ' o => σ := σ'; out := out ++ o
+        | .exit c => out := out ++ [s!"exit {c}"]; live := false
+        | .panic => out := out ++ ["panic"]; live := false
+        | .hang => out := out ++ ["hang"]; live := false
+    if live then
+      out := out ++ [traceStr σ.board σ.table]
+      match step H (sessSearch "") σ none with
+      | .exit c => out := out ++ [s!"exit {c}"]
+      | _ => out := out ++ ["?"]
+    return out
 
 def splitSp (s : String) : List String := s.splitOn " "
 
@@ -263,6 +313,10 @@ def doOp (ctx : Ctx) (line : String) : Ctx × String × String :=
        (ctx, toString (calculateTimeSlice gt (if c == "w" then .white else .black)), "-")
      | _ => (ctx, "bad-op", "-"))
   | "clean" => (ctx, escape (cleanInput (unescape rest)), "-")
+  | "sess" =>
+    -- `sess <escaped script>`: entries separated by newlines
+    let entries := (String.ofList (unescape rest)).splitOn "\n" |>.map String.toList
+    (ctx, " ~~ ".intercalate (runSession entries), "-")
   | "trimnl" => (ctx, escape (trimNewline (unescape rest)), "-")
   | "fmt" =>
     (ctx, match bestmoveLine ctx.cur with | some l => String.ofList l | none => "panic", "-")
